@@ -409,8 +409,16 @@ func (dq *Deque[T]) pop(it *element[T]) (out T, _ bool) {
 
 func (dq *Deque[T]) waitPop(ctx context.Context, direction dqDirection) (out T, _ error) {
 	for {
-		if err := dq.root.getNextOrPrevious(direction).wait(ctx, direction); err != nil {
-			return out, err
+		// only wait while there is nothing to pop: waiting on the
+		// element at the requested end of a non-empty deque blocks
+		// until that element's neighbor changes, although an item
+		// is available.
+		if dq.root.getNextOrPrevious(direction).isRoot() {
+			if err := dq.root.wait(ctx, direction); err != nil {
+				return out, err
+			}
+		} else if dq.closed {
+			return out, ErrQueueClosed
 		}
 
 		it, ok := dq.pop(dq.root.getNextOrPrevious(direction))
